@@ -473,6 +473,7 @@ func RunCheck(p *Program, cfg *CheckConfig, seed int) int {
 				// as a known finding only if known_findings.json lists <name>#bounded[KEY] as open; every other line is a violation
 				base := strings.TrimSuffix(name, "_test.go.txt")
 				var unknown, knownMsgs []string
+				seenKey := map[string]bool{}
 				for _, l := range strings.Split(out, "\n") {
 					i := strings.Index(l, "zz_lhv_replay_test.go:")
 					if i < 0 {
@@ -483,6 +484,10 @@ func RunCheck(p *Program, cfg *CheckConfig, seed int) int {
 						if e := strings.Index(m[j:], "]"); e > 0 {
 							key := m[j+7 : j+e]
 							if k := kf.Match(cfg.Property, base+"#bounded["+key+"]"); k != nil {
+								if seenKey[key] {
+									continue // one line per recorded finding, however many of its assertions fail
+								}
+								seenKey[key] = true
 								knownMsgs = append(knownMsgs, fmt.Sprintf("KNOWN-FINDING: property=%s %s [%s#bounded[%s]]", cfg.Property, k.What, base, key))
 								continue
 							}
